@@ -21,7 +21,7 @@ for d in sorted(glob.glob(os.path.join(ROOT, "seeded", "*", ""))):
 n = len(rows)
 det = sum(1 for v in reg.values() if v.startswith("DETECTED"))
 conc = sum(1 for v in reg.values() if "concrete" in v)
-head = ("%d confirmed changes (3 are the reverses of the fix: commits, %d come from independent sub-agents in twelve batches; the "
+head = ("%d confirmed changes (3 are the reverses of the fix: commits, %d come from independent sub-agents in thirteen batches; the "
         "third and later batches were asked for changes that are hard to notice and told which earlier ideas were already known).  Each "
         "compiles and leaves the unedited suite at 101 passed (gen/confirm_mut.sh in a scratch worktree: patch only / patch+demo "
         "/ demo only).  Last full regression (gen/seeded_regress.sh, quick tier, default seed): %d of %d detected by the check of "
